@@ -969,6 +969,24 @@ func (vf *VerifyFunc) step(st *State, fr *Frame, in ssa.Instruction) bool {
 		fr.idx++
 		return true
 	case *ssa.Call:
+		if b, ok := x.Call.Value.(*ssa.Builtin); ok && b.Name() == "append" && len(x.Call.Args) == 2 && sortOf(x.Call.Args[0].Type()) == SSlice && sortOf(x.Call.Args[1].Type()) == SSlice {
+			// append either fits the capacity (in place) or reallocates: explore both outcomes
+			vf.paths++
+			if vf.paths > eng.maxPaths {
+				vf.truncated = true
+				return false
+			}
+			st2 := st.fork()
+			st2.appendInplace = false
+			st2.trail = append(st2.trail, fmt.Sprintf("append@b%d:realloc", fr.block.Index))
+			fr2 := st2.top()
+			a2, _ := vf.evalCallArgs(st2, fr2, &x.Call)
+			fr2.regs[x] = vf.builtin(st2, fr2, in, "append", &x.Call, a2)
+			fr2.idx++
+			vf.run(st2)
+			st.appendInplace = true
+			st.trail = append(st.trail, fmt.Sprintf("append@b%d:inplace", fr.block.Index))
+		}
 		args, fnv := vf.evalCallArgs(st, fr, &x.Call)
 		res, pushed := vf.doCall(st, fr, x, &x.Call, args, fnv)
 		if pushed {
